@@ -190,6 +190,59 @@ func (r *c14Runner) admit(pod *corev1.Pod) (mutated *corev1.Pod, patched bool) {
 	return mutated, patched
 }
 
+// c14Resized is the pod as the cgroup reconciler meets it after an in-place resize: the webhook wrote the
+// extended-resource-spec annotation at CREATE and does nothing on UPDATE, so the annotation of a resized pod describes
+// amounts the spec no longer declares. The reconciler path works from the pod SPEC (it has the object), so the stale
+// annotation must make no difference there; every container named by the annotation gets other amounts in it.
+func c14Resized(pod *corev1.Pod) *corev1.Pod {
+	raw, ok := pod.Annotations[apiext.AnnotationExtendedResourceSpec]
+	if !ok {
+		return pod
+	}
+	var spec apiext.ExtendedResourceSpec
+	if err := json.Unmarshal([]byte(raw), &spec); err != nil || len(spec.Containers) == 0 {
+		return pod
+	}
+	stale := corev1.ResourceList{
+		apiext.BatchCPU:    *resource.NewQuantity(7000, resource.DecimalSI),
+		apiext.BatchMemory: *resource.NewQuantity(7<<30, resource.BinarySI),
+	}
+	for name := range spec.Containers {
+		spec.Containers[name] = apiext.ExtendedResourceContainerSpec{Requests: stale.DeepCopy(), Limits: stale.DeepCopy()}
+	}
+	b, err := json.Marshal(&spec)
+	if err != nil {
+		return pod
+	}
+	out := pod.DeepCopy()
+	out.Annotations[apiext.AnnotationExtendedResourceSpec] = string(b)
+	return out
+}
+
+// c14Decoy: the plugin is a long-lived singleton that serves every pod of the node; before the pod of the segment it has
+// already served another BE pod (no annotation, other amounts) on the reconciler path. Nothing of that may stick.
+func c14Decoy(p *plugin) {
+	big := corev1.ResourceList{
+		apiext.BatchCPU:    *resource.NewQuantity(9000, resource.DecimalSI),
+		apiext.BatchMemory: *resource.NewQuantity(9<<30, resource.BinarySI),
+	}
+	decoy := &corev1.Pod{
+		ObjectMeta: metav1.ObjectMeta{Name: "decoy", Namespace: "default", UID: "decoy-uid", Labels: map[string]string{apiext.LabelPodQoS: string(apiext.QoSBE)}},
+		Spec: corev1.PodSpec{Containers: []corev1.Container{{Name: "d", Resources: corev1.ResourceRequirements{Requests: big.DeepCopy(), Limits: big.DeepCopy()}}}},
+	}
+	meta := &statesinformer.PodMeta{Pod: decoy, CgroupDir: c14CgroupParent}
+	podCtx := &protocol.PodContext{}
+	podCtx.FromReconciler(meta)
+	_ = p.SetPodCPUShares(podCtx)
+	_ = p.SetPodCFSQuota(podCtx)
+	_ = p.SetPodMemoryLimit(podCtx)
+	cctx := &protocol.ContainerContext{}
+	cctx.FromReconciler(meta, "d", false)
+	_ = p.SetContainerCPUShares(cctx)
+	_ = p.SetContainerCFSQuota(cctx)
+	_ = p.SetContainerMemoryLimit(cctx)
+}
+
 // c14Plugin builds a fresh plugin and delivers the configuration of the reset event through the real rule parsers.
 func c14Plugin(c *c14Ev) *plugin {
 	p := newPlugin()
@@ -212,6 +265,7 @@ func c14Plugin(c *c14Ev) *plugin {
 			panic(fmt.Sprintf("c14: parseRuleForNodeMeta: %v", err))
 		}
 	}
+	c14Decoy(p)
 	return p
 }
 
@@ -311,7 +365,7 @@ func (r *c14Runner) doConts(p *plugin, pod *corev1.Pod, cs []c14Cont, mode strin
 		}
 	case "reconciler":
 		// the cgroup reconciler calls the per-file functions one by one
-		podMeta := &statesinformer.PodMeta{Pod: pod, CgroupDir: c14CgroupParent}
+		podMeta := &statesinformer.PodMeta{Pod: c14Resized(pod), CgroupDir: c14CgroupParent}
 		for i, cc := range cs {
 			ctxs[i] = &protocol.ContainerContext{}
 			ctxs[i].FromReconciler(podMeta, cc.Name, false)
@@ -355,7 +409,21 @@ func (r *c14Runner) doHook(p *plugin, pod *corev1.Pod, mode string) {
 		podCtx.FromNri(c14Sandbox(pod))
 		errs.note("pod", p.SetPodResources(podCtx))
 	case "reconciler":
-		podCtx.FromReconciler(&statesinformer.PodMeta{Pod: pod, CgroupDir: c14CgroupParent})
+		// the same plugin instance served this pod before its resize (same annotation, other amounts in the spec)
+		before := c14Resized(pod).DeepCopy()
+		for i := range before.Spec.Containers {
+			big := corev1.ResourceList{
+				apiext.BatchCPU:    *resource.NewQuantity(9000, resource.DecimalSI),
+				apiext.BatchMemory: *resource.NewQuantity(9<<30, resource.BinarySI),
+			}
+			before.Spec.Containers[i].Resources = corev1.ResourceRequirements{Requests: big.DeepCopy(), Limits: big.DeepCopy()}
+		}
+		warm := &protocol.PodContext{}
+		warm.FromReconciler(&statesinformer.PodMeta{Pod: before, CgroupDir: c14CgroupParent})
+		_ = p.SetPodCPUShares(warm)
+		_ = p.SetPodCFSQuota(warm)
+		_ = p.SetPodMemoryLimit(warm)
+		podCtx.FromReconciler(&statesinformer.PodMeta{Pod: c14Resized(pod), CgroupDir: c14CgroupParent})
 		errs.note("pod shares", p.SetPodCPUShares(podCtx))
 		errs.note("pod quota", p.SetPodCFSQuota(podCtx))
 		errs.note("pod mem", p.SetPodMemoryLimit(podCtx))
